@@ -58,10 +58,11 @@ def killCondText (fixed : Bool) : String := if fixed then "< Stopping" else "<= 
 def spawn (s : State) : State :=
   { s with n := s.n + 1, status := upd s.status s.n .starting }
 
-/-- `SupervisionTree::link(child, supervisor)`, one region under the tree lock. -/
-def link (s : State) (c p : Nat) : State × Bool :=
+/-- `SupervisionTree::link_below(child, supervisor, child_limit)`, one region under the tree lock: the
+child is refused at or above `lim`, the supervisor at or above `Draining`. -/
+def linkBelow (lim : Nat) (s : State) (c p : Nat) : State × Bool :=
   if s.n ≤ c ∨ s.n ≤ p then (s, false)
-  else if Status.draining.toNat ≤ (s.status c).toNat ∨ Status.draining.toNat ≤ (s.status p).toNat then (s, false)
+  else if lim ≤ (s.status c).toNat ∨ Status.draining.toNat ≤ (s.status p).toNat then (s, false)
   else match s.kids p with
     | none => (s, false)
     | some ks =>
@@ -76,6 +77,16 @@ def link (s : State) (c p : Nat) : State × Bool :=
             | none => kids1
             | some qs => upd kids1 q (some (qs.erase c))
           ({ s with kids := kids2, sup := upd s.sup c (some p) }, true)
+
+/-- `SupervisionTree::link(child, supervisor)` (the public `link` / `try_link`): child refused at `Draining`
+and above. -/
+def link (s : State) (c p : Nat) : State × Bool := linkBelow Status.draining.toNat s c p
+
+/-- `SupervisionTree::link_starting`: the link `start` makes for the actor it is starting (after
+`pre_start` for regular actors, before it for thread-local ones).  A `drain()` during `pre_start` has
+lifted the child to `Draining`; it is linked nevertheless.  Only a child at `Stopping` or above is refused.
+(Fix of finding F9, repo commit "drain() during pre_start no longer fails the start of a linked actor".) -/
+def linkStart (s : State) (c p : Nat) : State × Bool := linkBelow Status.stopping.toNat s c p
 
 /-- `SupervisionTree::unlink(child, supervisor)` -/
 def unlink (s : State) (c p : Nat) : State :=
